@@ -417,6 +417,20 @@ Theorem C16_arraylist_traversal :
 Proof. exact c16_arraylist_traversal. Qed.
 Print Assumptions C16_arraylist_traversal.
 
+(* ALIASING: an operator applied with both operands the SAME iterator object, a += (a - a), a -= (a - a), std::swap *)
+Theorem C16_self_operand :
+  forall (P V : Type) (o : c16_ops P V) (rep : Z -> P) (lo hi : Z), c16_iter_laws o rep lo hi ->
+  forall a b, c16_in lo hi a -> c16_in lo hi b ->
+    c16_o_eq o (rep a) (rep a) = true /\ c16_o_ne o (rep a) (rep a) = false /\
+    c16_o_lt o (rep a) (rep a) = false /\ c16_o_le o (rep a) (rep a) = true /\
+    c16_o_gt o (rep a) (rep a) = false /\ c16_o_ge o (rep a) (rep a) = true /\
+    c16_o_diff o (rep a) (rep a) = 0 /\
+    c16_o_pluseq o (rep a) (c16_o_diff o (rep a) (rep a)) = rep a /\
+    c16_o_minuseq o (rep a) (c16_o_diff o (rep a) (rep a)) = rep a /\
+    c16_swap (rep a) (rep b) = (rep b, rep a).
+Proof. exact c16_self_operand_laws. Qed.
+Print Assumptions C16_self_operand.
+
 (* ------------------------------------------------------------------ non-vacuity *)
 (* the hypotheses of C16_facade_laws are satisfiable by a real instance, and the conclusion speaks about real values:
    one-before-begin (size_t(-1)) < position 2 for a mutable lhs and a const rhs *)
@@ -466,3 +480,6 @@ Proof. vm_compute. reflexivity. Qed.
 Example C16_ex_deep_arraylist_traversal :
   c16_range_for (c16_legacy_ops (c16_alist_prims 2 3 [-7; -7; 1; 2; 3]) false) 5 (c16_iterrange (c16_alist_begin 2) (c16_alist_end 2 3)) = C16Ok [Some 1; Some 2; Some 3].
 Proof. vm_compute. reflexivity. Qed.
+Example C16_ex_self_operand : let o := c16_legacy_ops (c16_alist_prims 2 3 [-7; -7; 1; 2; 3]) false in
+  c16_o_lt o (c16_alist_rep 2 1) (c16_alist_rep 2 1) = false /\ c16_o_pluseq o 3 (c16_o_diff o 3 3) = 3 /\ c16_swap 1 2 = (2, 1).
+Proof. vm_compute. repeat split; reflexivity. Qed.
